@@ -148,6 +148,10 @@ struct LocalMon {
 }
 
 thread_local! {
+    /// When set, the position on the board this thread last applied/undid a move on is kept in TRACKED
+    /// (used by the search-node oracle to know which position a search node is about).
+    pub static TRACK_POSITION: std::cell::Cell<bool> = const { std::cell::Cell::new(false) };
+    pub static TRACKED: RefCell<Option<crate::refchess::Pos>> = const { RefCell::new(None) };
     static LOCAL: RefCell<LocalMon> = RefCell::new(LocalMon::default());
     /// Set while a deliberately failing apply is being exercised (C03/C14 negative probes).
     pub static SUPPRESS: std::cell::Cell<bool> = const { std::cell::Cell::new(false) };
@@ -180,6 +184,12 @@ pub fn flush_all() { flush_thread(); rayon::broadcast(|_| flush_thread()); }
 pub fn reset_thread_stacks() { LOCAL.with(|l| l.borrow_mut().stacks.clear()); }
 
 fn on_board_event(ev: &BoardEvent) {
+    if TRACK_POSITION.with(|t| t.get()) {
+        match ev {
+            BoardEvent::AfterApply(_, b, true) | BoardEvent::AfterUndo(_, b, true) => { let p = crate::bridge::from_engine(b); TRACKED.with(|t| *t.borrow_mut() = Some(p)); }
+            _ => {}
+        }
+    }
     let inv = INV_ON.load(Ordering::Relaxed);
     let undo = UNDO_ON.load(Ordering::Relaxed);
     if !inv && !undo { return; }
@@ -304,9 +314,14 @@ pub fn enable_board_monitors(inv: bool, undo: bool) {
 
 /// A rayon pool whose workers route search events to `sink`.
 pub fn pool_with_session(threads: usize, sink: Option<Arc<dyn SearchSink>>) -> rayon::ThreadPool {
+    pool_with_session_tracking(threads, sink, false)
+}
+
+/// Like `pool_with_session`; with `track` the workers also keep the position of their current board.
+pub fn pool_with_session_tracking(threads: usize, sink: Option<Arc<dyn SearchSink>>, track: bool) -> rayon::ThreadPool {
     rayon::ThreadPoolBuilder::new()
         .num_threads(threads)
-        .start_handler(move |_| { set_session(sink.clone()); })
+        .start_handler(move |_| { set_session(sink.clone()); TRACK_POSITION.with(|t| t.set(track)); })
         .exit_handler(|_| { flush_thread(); })
         .build()
         .expect("rayon pool")
